@@ -26,6 +26,7 @@ import (
 	"strings"
 	"sync"
 	"testing"
+	"time"
 )
 
 type zzCase struct {
@@ -90,6 +91,7 @@ func vObserveB(n string, b []byte) {
 }
 func vKnown(id string, c bool) bool { return c }
 func vGo(name string, f func())     { go f() }
+func vSleep(ms int) { time.Sleep(time.Duration(ms) * time.Millisecond) }
 func vTempDir() string {
 	d, err := os.MkdirTemp("", "zzverif")
 	if err != nil {
@@ -509,12 +511,28 @@ func cmdCheck(prop, tier string) int {
 	knownPrinted := map[string]bool{}
 	var lines []string
 	seenFinding := map[string]*Finding{}
+	retried := map[string]int{}
 	for i, f := range findings {
 		gk := f.Root + "|" + f.ID + "|" + strings.Join(f.Known, ",")
 		if first, ok := seenFinding[gk]; ok {
-			f.Verdict = first.Verdict + " (same finding as " + fmt.Sprint(first.Args) + ")"
-			first.Paths += f.Paths
-			continue
+			if strings.HasPrefix(first.Verdict, "inconclusive") && (f.Kind == "assert" || f.Kind == "panic") && retried[gk] < 4 {
+				// the first instance did not reproduce natively (e.g. the native scheduler did not take that
+				// interleaving): try this other instance of the same finding
+				retried[gk]++
+				seenFinding[gk] = f
+				// drop the inconclusive note of the earlier instance
+				var keep []string
+				for _, s := range inconclusive {
+					if !strings.Contains(s, first.Replay) {
+						keep = append(keep, s)
+					}
+				}
+				inconclusive = keep
+			} else {
+				f.Verdict = first.Verdict + " (same finding as " + fmt.Sprint(first.Args) + ")"
+				first.Paths += f.Paths
+				continue
+			}
 		}
 		seenFinding[gk] = f
 		switch f.Kind {
@@ -654,6 +672,9 @@ func cmdCheck(prop, tier string) int {
 	for i := range ps.Roots {
 		r := &ps.Roots[i]
 		ts := r.tuples(tier)
+		if len(ts) == 0 {
+			continue
+		}
 		uw := r.Unwind
 		if uw == 0 {
 			uw = 64
